@@ -198,6 +198,12 @@ func HostileFilter(r *fw.Rand, paths []string, depth int) bson.D {
 				default:
 					arg = HostileValue(r, 2)
 				}
+				if op == "$mod" && r.Chance(1, 2) {
+					// well-shaped [divisor, remainder] pairs with odd numbers: zero,
+					// fractions that truncate to zero, non-finite and huge values
+					odd := []interface{}{0.5, -0.25, 1e-300, 0.0, math.Copysign(0, -1), int32(0), int64(0), math.NaN(), math.Inf(1), math.Inf(-1), 1e300, -1e300, 9.3e18, int64(math.MinInt64), int32(-1), int32(3), 2.5, D128("0"), D128("0.5"), D128("NaN")}
+					arg = bson.A{fw.Pick(r, odd), fw.Pick(r, odd)}
+				}
 				od = append(od, bson.E{Key: op, Value: arg})
 			}
 			f = append(f, bson.E{Key: hostilePath(r, paths), Value: od})
